@@ -112,7 +112,7 @@ static bool _process_send(Device * dev, Action *act, ExecCtx *e);
 static bool _process_delay(Device * dev, Action *act, ExecCtx *e,
         struct timeval *timeout);
 static int _match_name(Device * dev, void *key);
-static bool _handle_read(Device * dev);
+static bool _handle_read(Device * dev, int *nread);
 static bool _handle_write(Device * dev);
 static void _process_action(Device * dev, struct timeval *timeout);
 static bool _timeout(struct timeval *timestamp, struct timeval *timeout,
@@ -1461,12 +1461,13 @@ void dev_initial_connect(void)
 /*
  * Select says device is ready for reading.
  */
-static bool _handle_read(Device * dev)
+static bool _handle_read(Device * dev, int *nread)
 {
     int n;
     int dropped;
 
     n = cbuf_write_from_fd(dev->from, dev->fd, -1, &dropped);
+    *nread = n;
     if (n < 0) {
         err(true, "read error on %s", dev->name);
         goto err;
@@ -1540,10 +1541,12 @@ _handle_ready_device(Device *dev, short flags)
     }
     /* ready for reading */
     if (flags & XPOLLIN) {
-        if (_handle_read(dev))
+        int nread = 0;
+
+        if (_handle_read(dev, &nread))
             goto ioerr;
         if (dev->preprocess != NULL)
-            dev->preprocess(dev);   /* preprocess input, e.g. telnet escapes */
+            dev->preprocess(dev, nread); /* preprocess new input, e.g. telnet escapes */
     }
 success:
     return false;
